@@ -76,6 +76,8 @@ class Reply:
             if pos is not None:
                 plain = tree.children[pos].encode()
                 cipher = usm.priv_encrypt(sec["priv_alg"], sec["priv_kul"], sec["boots"], sec["time"], sec["salt"], plain)
+                if sec.get("cipher_trim"):
+                    cipher = cipher[: max(0, len(cipher) - sec["cipher_trim"])]
                 tree.children[pos] = ber.prim(0x04, cipher, name="encrypted")
         if sec.get("auth_alg") and sec.get("sign", True):
             a = snmp.find(tree, "usm-auth")
